@@ -253,15 +253,16 @@ def mustCreate (s : Sys) (tT : TDef) : Bool :=
   | some l' => !s.created l'
   | none => false
 
-/-- the creator is called and its tasks are registered; `none` = `set_implicit_deps` raised -/
-def evalCreator (inp : Input) (s : Sys) (l : LId) (tname : Name) : Option Sys :=
+/-- the creator is called (that is the observable event) and its tasks are registered; when `set_implicit_deps`
+    raises ("Two different tasks can't have a common target") nothing is registered -/
+def evalCreator (inp : Input) (s : Sys) (l : LId) (tname : Name) : Sys :=
   match regTargets s.targets (targetPairs (inp.make (inp.creatorOf l) tname)) with
-  | none => none
+  | none => { s with susp := .err .dupTarget, events := Ev.creator (inp.creatorOf l) :: s.events }
   | some tg =>
-    some { s with targets := tg,
-                  tasks := insertNew tg s.nextOid s.tasks (inp.make (inp.creatorOf l) tname),
-                  nextOid := s.nextOid + (inp.make (inp.creatorOf l) tname).length,
-                  events := Ev.creator (inp.creatorOf l) :: s.events }
+    { s with targets := tg,
+             tasks := insertNew tg s.nextOid s.tasks (inp.make (inp.creatorOf l) tname),
+             nextOid := s.nextOid + (inp.make (inp.creatorOf l) tname).length,
+             events := Ev.creator (inp.creatorOf l) :: s.events }
 
 /-- the placeholder object after `add_implicit_task_dep(…, this_task, this_task.file_dep)`, `file_dep = {}` for a
     regex placeholder, `this_task.loader = DelayedLoaded` -/
@@ -314,9 +315,9 @@ def loaderStep (inp : Input) (s : Sys) (n : Name) (nd : Node) (l : LId) : Sys :=
   | none => { s with susp := .err .crash }               -- `self.tasks[to_load]`: KeyError
   | some tT =>
     if mustCreate s tT then
-      match evalCreator inp s l (toLoad inp l n) with
-      | none => { s with susp := .err .dupTarget }
-      | some s1 => afterCreate inp s1 n nd l
+      match (evalCreator inp s l (toLoad inp l n)).susp with
+      | .err _ => evalCreator inp s l (toLoad inp l n)
+      | _ => afterCreate inp (evalCreator inp s l (toLoad inp l n)) n nd l
     else afterCreate inp s n nd l
 
 /-! ### the generators -/
